@@ -73,11 +73,9 @@ def peer_writer_discipline(ctx, pkg="internal/app/referenceclient", hdir="refcli
         ctx.sample(dict(leg=leg, schedule=ok[0]["schedule"], events=[(e["e"], e.get("i", e.get("r", e.get("ok", "")))) for e in ok[0]["events"]]))
 
 
-def run(ctx):
-    q = ctx.quick
-    # 1. design: machine == declarative Decode for every chunking / cut / end kind
-    mc = ctx.tlc("Framing", "MC_Framing.cfg", timeout=600)
-    ctx.notes["mc_design"] = dict(distinct=mc.distinct, generated=mc.generated, cfg="MC_Framing.cfg")
+def replay_leg(ctx, q):
+    """TLC's chunkings / cuts / stalls replayed on the real readers and the writer.  Also used by C10 and C11, whose
+    specifications take 'a read of a peer's output returns within the timeout with the right classification' as given."""
     # 2. behaviours: exhaustive small + simulated long
     gen = ctx.tlc("Gen_Framing", "Gen_Framing_small.cfg" if q else "Gen_Framing_full.cfg", timeout=1200)
     scns = gen.json_lines("SCN ")
@@ -127,6 +125,15 @@ def run(ctx):
     ctx.notes["replay"] = summ
     for s in allscn[:: max(1, len(allscn) // 4)][:4]:
         ctx.sample(s)
+    return binp
+
+
+def run(ctx):
+    q = ctx.quick
+    # 1. design: machine == declarative Decode for every chunking / cut / end kind
+    mc = ctx.tlc("Framing", "MC_Framing.cfg", timeout=600)
+    ctx.notes["mc_design"] = dict(distinct=mc.distinct, generated=mc.generated, cfg="MC_Framing.cfg")
+    binp = replay_leg(ctx, q)
     if ctx.replay:
         return
     # 3. code -> spec: real readers on long random streams, accepted by Trace_Framing
